@@ -206,6 +206,16 @@ func (ts *c11TokSrv) genCC(r *vf.Rand) []c11CC {
 		steps = append(steps, c)
 	}
 
+	// A B (C) A B: earlier look-ups again after later entries have been stored
+	if r.Chance(45) {
+		for i, k := 0, len(steps); i < k && i < 3; i++ {
+			c := steps[i]
+			c.Scopes = append([]string(nil), c.Scopes...)
+			c.Rel = "revisit"
+			steps = append(steps, c)
+		}
+	}
+
 	return steps
 }
 
@@ -766,6 +776,18 @@ func c11GenJF(r *vf.Rand) c11JFCase {
 		}
 	}
 
+	if r.Chance(40) {
+		k := 0
+
+		for _, st := range append([]c11JStep(nil), c.Steps...) {
+			if st.Reload == "" && k < 3 {
+				st.Rel = "revisit"
+				c.Steps = append(c.Steps, st)
+				k++
+			}
+		}
+	}
+
 	return c
 }
 
@@ -1199,6 +1221,14 @@ func c11GenJK(r *vf.Rand) c11JKCase {
 		c.Steps = append(c.Steps, from)
 	}
 
+	if r.Chance(45) {
+		for i, k := 0, len(c.Steps); i < k && i < 3; i++ {
+			st := c.Steps[i]
+			st.Rel = "revisit"
+			c.Steps = append(c.Steps, st)
+		}
+	}
+
 	return c
 }
 
@@ -1467,6 +1497,14 @@ func c11GenHC(r *vf.Rand) c11HCCase {
 
 	for i := 0; i < n; i++ {
 		c.Steps = append(c.Steps, c11HCStep{Ep: r.Intn(len(c.Eps)), Sub: vf.Pick(r, c11SubIDs), Rel: "step"})
+	}
+
+	if r.Chance(45) {
+		for i, k := 0, len(c.Steps); i < k && i < 3; i++ {
+			st := c.Steps[i]
+			st.Rel = "revisit"
+			c.Steps = append(c.Steps, st)
+		}
 	}
 
 	return c
